@@ -118,6 +118,8 @@ def coq_iout(r):
         e = r["err"] if r["err"] in ERRS else "OtherErr"
         return f"IErr {e}"
     if "val" in r:
+        if r.get("spread", 0.0) > 1e-3:
+            return "ISkip"
         if r["val"] is None:
             return "IObs [] None"
         sh = "None" if "shape" not in r else "(Some " + coq_list([str(n) for n in r["shape"]]) + ")"
@@ -244,6 +246,60 @@ def correspondence(ctx):
             if op["op"] == "new":
                 dist["kinds"][op["kind"]] = dist["kinds"].get(op["kind"], 0) + 1
                 dist["param_kinds"][op["pk"]] = dist["param_kinds"].get(op["pk"], 0) + 1
+    # ExpFlow sharing (Model/ExpShare.v): construction / copy / grid_ / grid() / inverse on real SVF objects
+    nx = ctx.n(60, 400)
+    xh = []
+    for _ in range(nx):
+        h = [["new", rng.random() < 0.5]]
+        for _ in range(rng.randint(1, ctx.n(6, 12))):
+            n_obj = 1 + sum(1 for op in h[1:] if op[0] in ("new", "copy", "grid", "inverse"))
+            k = rng.choice(["new", "copy", "grid_", "grid_", "grid", "grid", "inverse"])
+            o = rng.randrange(n_obj)
+            if k == "new":
+                h.append(["new", rng.random() < 0.5])
+            elif k == "copy":
+                h.append(["copy", o])
+            elif k in ("grid_", "grid"):
+                h.append([k, o, rng.random() < 0.5])
+            else:
+                h.append(["inverse", o, False, rng.random() < 0.5])
+        xh.append(h)
+    xres = vlib.run_impl("c09_impl", {"fn": "expshare", "histories": xh})
+    xl = ["From Coq Require Import List Bool String.", "From DV Require Import Model.ExpShare Gen.TState Model.TransformCfg.",
+          "Import ListNotations."]
+
+    def xop(op):
+        k = op[0]
+        if k == "new":
+            return f"XNew {b(op[1])}"
+        if k == "copy":
+            return f"XCopy {op[1]}"
+        if k == "grid_":
+            return f"XGrid {op[1]} {b(op[2])}"
+        if k == "grid":
+            return f"XGridCopy {op[1]} {b(op[2])}"
+        return f"XInverse {op[1]}"
+    xn = []
+    for i, (h, r) in enumerate(zip(xh, xres)):
+        if "error" in r:
+            failures.append({"why": "ExpFlow sharing history raised on the implementation", "history": h, "impl": r})
+            continue
+        view = coq_list([f"({b(v[0])}, {b(v[1])}, {v[2]})" for v in r["view"]])
+        xl.append(f"Definition x{i} : bool := xagree gen_private_exp {coq_list([xop(o) for o in h])} {view}.")
+        xn.append((i, f"x{i}"))
+    xl.append("Fixpoint failing_from (i : nat) (l : list bool) : list nat := match l with [] => [] | c :: r => if c then failing_from (S i) r else i :: failing_from (S i) r end.")
+    xl.append("Definition results : list bool := " + coq_list([nm for _, nm in xn]) + ".")
+    xl.append('Eval vm_compute in ("FAIL"%string, failing_from 0 results).')
+    rc, out = vlib.coqc_text("\n".join(xl) + "\n", ctx.scratch, "cases_c09_expshare")
+    bad = vlib.parse_nat_list(out, "FAIL")
+    if rc != 0 or bad is None:
+        failures.append({"why": "ExpFlow sharing case file did not evaluate", "coq": out[-600:]})
+    else:
+        for j in bad:
+            i = xn[j][0]
+            failures.append({"why": "ExpFlow sharing: model and implementation disagree (flags or module identity)", "xhistory": xh[i], "impl": xres[i]})
+    evaluations += sum(len(h) for h in xh)
+    dist["expshare_histories"] = nx
     samples = [{"history": hists[i], "impl": all_res[i]} for i in range(min(2, len(hists)))]
     nontrivial = sum(1 for h, r in zip(hists, all_res)
                      if sum(1 for op, x in zip(h, r) if op["op"] in ("call", "disp", "tensor") and x["st"] == "ok") >= 1
@@ -271,6 +327,9 @@ def search(ctx, broken, corr_failures):
         out.append(Violation(key=f["key"], what=f["what"], replay={"oracle": payload, "failure": f}))
     # disagreements of the correspondence are concrete failing histories of the modelled behaviour
     for f in corr_failures[:3]:
+        if "xhistory" in f:
+            out.append(Violation(key="C09:StationaryVelocityFieldTransform.grid_:ExpFlow-sharing:model-vs-implementation", what=f["why"],
+                                 replay={"xhistory": f["xhistory"], "impl": f.get("impl")}))
         if "history" in f:
             last = f["history"][-1]["op"]
             out.append(Violation(key=f"C09:model-vs-implementation:{last}", what="implementation leaves the modelled state machine: " + f["why"],
@@ -291,6 +350,19 @@ def replay(ctx, data):
             if g["key"] == data["failure"]["key"]:
                 return g["what"]
         return None
+    if "xhistory" in data:
+        h = data["xhistory"]
+        r = vlib.run_impl("c09_impl", {"fn": "expshare", "histories": [h]})[0]
+        if "error" in r:
+            return "ExpFlow sharing history raises: " + str(r)[:160]
+        names = {"new": "XNew", "copy": "XCopy", "grid_": "XGrid", "grid": "XGridCopy", "inverse": "XInverse"}
+        ops = coq_list([names[o[0]] + " " + " ".join((b(x) if isinstance(x, bool) else str(x)) for x in (o[1:3] if o[0] != "inverse" else o[1:2])) for o in h])
+        view = coq_list([f"({b(v[0])}, {b(v[1])}, {v[2]})" for v in r["view"]])
+        txt = ("From Coq Require Import List Bool String.\nFrom DV Require Import Model.ExpShare Gen.TState Model.TransformCfg.\nImport ListNotations.\n"
+               f'Eval vm_compute in ("FAIL"%string, [if xagree gen_private_exp {ops} {view} then 0 else 1]).\n')
+        rc, out = vlib.coqc_text(txt, ctx.scratch, "replay_x")
+        bad = vlib.parse_nat_list(out, "FAIL")
+        return "ExpFlow sharing: model and implementation still disagree" if (rc != 0 or bad != [0]) else None
     if "history" in data:
         tables = tables_of(ctx)
         res, rc, out, verdict = evaluate(ctx, [data["history"]], tables, "replay")
